@@ -151,6 +151,8 @@ def random_texts(acc, n, seed):
     texts = corpus()
     soup_tok = st.sampled_from(VOCAB + ["b", "2.5", "'t'", "<", ">", "#x\n", "-",
                                         "2#1#", "12:00", "NULL", "BEGIN_GROUP",
+                                        "2001-12+3", "12:00:60+07", "2001-366",
+                                        "2010-12-31T23:59:60", "+.5", "1e+", "16#",
                                         "=", "=", "(", ")"])
     sep = st.sampled_from([" ", " ", "", "\n", "\t", " \n "])
     soup = st.lists(st.tuples(soup_tok, sep), max_size=25).map(
